@@ -174,7 +174,7 @@ def build_wall_case(c):
                 if c["vent"] == "own":
                     sp2["n_v"] = 0.5
                 spaces.append(sp2)
-                walls.append(wall("E2", "EXTERIOR", "REF", s2, 90.0, [10.0, 0.0, 0.0], rect(3.0, 3.0)))
+                walls.append(wall("E2", "EXTERIOR", "REF", s2, 90.0, [10.0, 0.0, 0.0], rect(3.5, 3.0)))
                 walls.append(wall("F2", "EXTERIOR", "REF", s2, 180.0, [10.0, 0.0, 0.0], [[0.0, 0.0], [4.0, 0.0], [4.0, -3.0], [0.0, -3.0]]))
         if c["vent"] == "own":
             spaces[0]["n_v"] = 0.5
@@ -184,7 +184,7 @@ def build_wall_case(c):
         if c.get("glazed"):
             # the exterior wall of each space carries a window of 2 m2 with U = 3 (all glass, no increment)
             wins = [{"id": uid("win-" + w["name"]), "name": "V" + w["name"], "cons": uid("wincons-ref"), "wall": w["id"],
-                     "geometry": {"position": [0.5, 0.5], "height": 1.0, "width": 2.0, "setback": 0.0}} for w in walls if w["name"] in ("E1", "E2")]
+                     "geometry": {"position": [0.5, 0.5], "height": 1.0, "width": 2.0 if w["name"] == "E1" else 1.5, "setback": 0.0}} for w in walls if w["name"] in ("E1", "E2")]
             dbw = {"wallcons": cons, "materials": mats, "wincons": [{"id": uid("wincons-ref"), "name": "VREF", "glass": uid("glass-ref"), "frame": uid("frame-ref"),
                                                                       "f_f": 0.0, "delta_u": 0.0, "c_100": 27.0}],
                    "glasses": [{"id": uid("glass-ref"), "name": "GREF", "u_value": 3.0, "g_gln": 0.7}],
